@@ -67,6 +67,8 @@ cfg_64!(
 
         let mut c: u8;
         let mut idx = 0;
+        #[cfg(num_bigint_verif)]
+        crate::verif_probe::hit(7);
 
         asm!(
             // Clear carry flag
@@ -137,6 +139,10 @@ cfg_64!(
             options(nostack),
         );
 
+        #[cfg(num_bigint_verif)]
+        if c > 0 {
+            crate::verif_probe::hit(8);
+        }
         (c > 0, idx)
     }
 );
@@ -171,14 +177,27 @@ pub(super) fn sub2(a: &mut [BigDigit], b: &[BigDigit]) {
     }
 
     if borrow != 0 {
+        #[cfg(num_bigint_verif)]
+        crate::verif_probe::hit(9);
         for a in a_hi {
             borrow = sbb(borrow, *a, 0, a);
             if borrow == 0 {
                 break;
             }
+            #[cfg(num_bigint_verif)]
+            crate::verif_probe::hit(10);
         }
     }
 
+    #[cfg(num_bigint_verif)]
+    {
+        if borrow != 0 {
+            crate::verif_probe::hit(11);
+        }
+        if !b_hi.iter().all(|x| *x == 0) {
+            crate::verif_probe::hit(12);
+        }
+    }
     // note: we're _required_ to fail on underflow
     assert!(
         borrow == 0 && b_hi.iter().all(|x| *x == 0),
@@ -246,6 +265,8 @@ impl Sub<BigUint> for &BigUint {
             let lo_borrow = __sub2rev(&self.data[..other_len], &mut other.data);
             other.data.extend_from_slice(&self.data[other_len..]);
             if lo_borrow != 0 {
+                #[cfg(num_bigint_verif)]
+                crate::verif_probe::hit(13);
                 sub2(&mut other.data[other_len..], &[1])
             }
         } else {
